@@ -126,7 +126,9 @@ func TestVerifC10(t *testing.T) {
 		A, _ := n.createSession()
 		B, _ := n.createSession()
 		cm := uint64(100)
-		next := func() uint64 { cm++; return cm }
+		// client message ids are not monotonic in practice (the bridge derives them from a hash of the
+		// message and a random number): use a fixed permutation of distinct non-zero values
+		next := func() uint64 { cm++; return (cm*2654435761)%1000003 + 1 }
 		for _, l := range []string{"NICK a", "USER a 0 * :a", "JOIN #c"} {
 			n.post(A, l, next())
 		}
